@@ -108,6 +108,7 @@ pub fn check(sc: &Scenario, out: &RunOutput) -> OracleResult {
     let mut max_ack: Option<u16> = None;
     let mut reader_dropped = false;
     let mut rec_point: Option<u16> = None;
+    let mut own_fin_out: Option<u16> = None;
     let mut leave_due: Option<T> = None;
     let mut recovery_entries = 0u64;
     let mut timer_start: Option<T> = None;
@@ -129,7 +130,12 @@ pub fn check(sc: &Scenario, out: &RunOutput) -> OracleResult {
             // left by the acknowledgement that covers that point (or by a timeout)
             X::Probe(ProbeEvent::Cc { key, call, .. }) if key.is_some_and(|k| k.local == w.e) => match call {
                 CcCall::OnEnterRecovery => {
-                    rec_point = next_unsent.map(|n| n.wrapping_sub(1));
+                    // (a FIN that is already out occupies the number after the last data segment)
+                    rec_point = match (next_unsent.map(|n| n.wrapping_sub(1)), own_fin_out) {
+                        (Some(h), Some(f)) if seq_diff(f, h) > 0 => Some(f),
+                        (None, Some(f)) => Some(f),
+                        (h, _) => h,
+                    };
                     leave_due = None;
                     recovery_entries += 1;
                 }
@@ -441,6 +447,7 @@ pub fn check(sc: &Scenario, out: &RunOutput) -> OracleResult {
                     let _ = recovering;
                 }
                 codec::ST_FIN => {
+                    own_fin_out.get_or_insert(p.seq);
                     let is_rto = rto_poll[i];
                     if is_rto || timer_start.is_none() {
                         timer_start = Some(t);
